@@ -370,7 +370,27 @@ def replay(cls, cfg, seed=0):
         shape = tuple(cfg["shape"])
         D = shape[1]
         x = torch.randn(shape, dtype=torch.float64) * 1.7 + 0.4
-        if cls == "ActNorm":
+        if cls == "ActNorm" and cfg.get("op") == "history":
+            m = NM.ActNorm(D).double()
+            state = (True, False, m.log_scale.detach().clone(), m.shift.detach().clone())
+            worst = 0.0
+            for op in cfg["history"]:
+                xb = torch.randn(shape, dtype=torch.float64) * 1.7 + 0.4
+                if op == "train":
+                    m.train(); out = None
+                elif op == "eval":
+                    m.eval(); out = None
+                else:
+                    with torch.no_grad():
+                        out = (m(xb) if op == "forward" else m.inverse(xb))[0]
+                state, ref = reference_actnorm(state, op, xb)
+                if ref is not None:
+                    worst = max(worst, float((out - ref).abs().max()))
+                if bool(m.initialized) != state[1]:
+                    worst = max(worst, 1.0)
+            res["max_deviation"] = worst
+            res["reproduced"] = worst > 1e-8
+        elif cls == "ActNorm":
             m = NM.ActNorm(D).double()
             with torch.no_grad():
                 m.log_scale.copy_(torch.randn(D) * 0.3)
@@ -477,7 +497,64 @@ def validate_random_histories(n, seed):
     return ok, bad
 
 
+def job_history(cfg):
+    """Bounded histories from the constructor state on ONE object, in lock-step with a reference model kept on the
+    same symbolic values: catches state that the abstract state of the inductive step does not know about (a host-side
+    flag, a counter, a cached tensor)."""
+    ops, shape = cfg["ops"], tuple(cfg["shape"])
+    timeout = cfg["timeout"]
+    R = sc.new_registry()
+    solver = smt.Z3Proc()
+    D = shape[1]
+    name = "ActNorm/history(%s)/batch=%s" % (",".join(ops), list(shape))
+    jr = C01.new_jr("ActNorm")
+    jr["paths"] = 1
+    cx = Ctx(jr, R, solver, name, timeout)
+    with stubs.torch_patches():
+        R.begin_run()
+        m = NM.ActNorm(D)
+        TK.symbolize(m)
+        ref = {"training": True, "initialized": False, "ls": Sym(m.log_scale.a.copy()), "sh": Sym(m.shift.a.copy())}
+        v4 = (lambda t: t.view(1, -1, 1, 1)) if len(shape) == 4 else (lambda t: t.view(1, -1))
+        asm = []
+        for step, op in enumerate(ops):
+            x = stubs.named_tensor("x%d" % step, shape)
+            if op == "train":
+                m.train()
+                ref["training"] = True
+                continue
+            if op == "eval":
+                m.eval()
+                ref["training"] = False
+                continue
+            means, vars_, n = batch_stats(x)
+            will_init = op == "forward" and ref["training"] and not ref["initialized"]
+            if will_init:
+                asm += [tm.gt(v.t, tm.ZERO) for v in vars_]
+            ex = explore.Explorer(R, solver, assumptions=asm, max_paths=4)
+            res = ex.explore(lambda: m(x) if op == "forward" else m.inverse(x))
+            if len(res) != 1 or res[0].kind != "return":
+                jr["inconclusive"].append({"query": name, "why": "step %d (%s): %s" % (step, op, [(r.kind, str(r.exc)[:60]) for r in res])})
+                break
+            y, lad = res[0].value
+            if will_init:
+                std = Sym(_obj(np.array(vars_, dtype=object))).sqrt()
+                mu = Sym(_obj(np.array(means, dtype=object))) / std
+                ref["ls"], ref["sh"], ref["initialized"] = -std.log(), -mu, True
+            expect = v4(ref["ls"].exp()) * x + v4(ref["sh"]) if op == "forward" else (x - v4(ref["sh"])) / v4(ref["ls"].exp())
+            cx.eq("step%d:%s/outputs==reference" % (step, op), y, expect, asm)
+            cx.check("step%d:%s/initialized-flag" % (step, op), bool(m.initialized) == ref["initialized"], "flag %s, reference %s" % (bool(m.initialized), ref["initialized"]))
+            cx.eq_log("step%d:%s/log_scale==reference" % (step, op), m.log_scale, ref["ls"], asm)
+            cx.eq("step%d:%s/shift==reference" % (step, op), m.shift, ref["sh"], asm)
+    jr["transitions"] = len(ops)
+    finish(jr, cx, "ActNorm", {"cls": "ActNorm", "history": list(ops), "shape": list(shape), "op": "history", "training": True, "initialized": False})
+    solver.close()
+    return jr
+
+
 def job(cfg):
+    if cfg["cls"] == "history":
+        return job_history(cfg)
     return job_actnorm(cfg) if cfg["cls"] == "ActNorm" else job_batchnorm(cfg)
 
 
@@ -493,6 +570,13 @@ def configs(tier):
             if op not in ("forward", "inverse") and shape != shapes_a[0]:
                 continue
             cfgs.append({"cls": "ActNorm", "training": training, "initialized": initialized, "op": op, "shape": list(shape), "timeout": t})
+    L = 3 if tier == "quick" else 4
+    for n in range(2, L + 1):
+        for ops in itertools.product(("train", "eval", "forward", "inverse"), repeat=n):
+            if "forward" not in ops or ops[-1] in ("train", "eval"):
+                continue
+            cfgs.append({"cls": "history", "ops": list(ops), "shape": [2, 1], "timeout": t})
+    cfgs.append({"cls": "history", "ops": ["eval", "forward", "train", "forward", "forward"], "shape": [2, 2, 1, 2], "timeout": t})
     shapes_b = [(2, 1), (3, 2)] if tier == "quick" else [(2, 1), (3, 1), (2, 2), (3, 2), (4, 1)]
     for training, op in itertools.product((True, False), OPS):
         for shape in shapes_b:
@@ -506,7 +590,7 @@ def main():
     rep = C.Report(PROP, level="model_checking")
     cfgs = configs(C.TIER)
     rep.functions = C.source_hash([NM.ActNorm, NM.BatchNorm])
-    rep.bounds = {"ActNorm": "abstract states training x initialised (4), operations %s, batches %s" % (list(OPS), sorted({tuple(c["shape"]) for c in cfgs if c["cls"] == "ActNorm"})), "BatchNorm": "states training (2), same operations, batches %s, symbolic momentum in (0,1)" % sorted({tuple(c["shape"]) for c in cfgs if c["cls"] == "BatchNorm"})}
+    rep.bounds = {"ActNorm_histories": "every operation sequence of length <= %d over {train, eval, forward, inverse} from the constructor state on one object, symbolic batches, lock-step with the reference" % (3 if C.TIER == "quick" else 4), "ActNorm": "abstract states training x initialised (4), operations %s, batches %s" % (list(OPS), sorted({tuple(c["shape"]) for c in cfgs if c["cls"] == "ActNorm"})), "BatchNorm": "states training (2), same operations, batches %s, symbolic momentum in (0,1)" % sorted({tuple(c["shape"]) for c in cfgs if c["cls"] == "BatchNorm"})}
     rep.assumptions = ["one inductive step from an arbitrary symbolic state covers histories of every length", "the batch that triggers the data-dependent initialisation is not constant in any feature (its variance is > 0)", "exact real arithmetic; std is the non-negative root of the unbiased variance", "the reference transition functions were written from the docstrings (Glow actnorm, momentum rule)"]
     rep.stubs = ["parameters / running statistics / momentum replaced by symbols"]
     trans = 0
